@@ -415,8 +415,10 @@ def main(argv=None):
     }
     if not evidence["coverage"]["samples"]:
         evidence["coverage"]["samples"] = ["<no sample recorded>"]
-    os.makedirs(os.path.join(ROOT, "evidence"), exist_ok=True)
-    with open(os.path.join(ROOT, "evidence", f"{prop_id}.json"), "w") as f:
+    # VERIF_EVIDENCE_DIR: development runs against a deliberately broken scratch tree write their evidence elsewhere
+    evdir = os.environ.get("VERIF_EVIDENCE_DIR") or os.path.join(ROOT, "evidence")
+    os.makedirs(evdir, exist_ok=True)
+    with open(os.path.join(evdir, f"{prop_id}.json"), "w") as f:
         json.dump(evidence, f, indent=1, sort_keys=True, default=str)
 
     print(
